@@ -274,6 +274,13 @@ func genC09Plan(seed int64, tier string) *C09Plan {
 	}
 	// a template over an element the information model lacks: its data sets are undecodable
 	bad := model.Template{ID: 400, Fields: []model.FieldSpec{{ID: uint16(21000 + r.Intn(100)), Len: 4}, {ID: 1, Len: 8}}}
+	if r.Intn(2) == 0 {
+		// the id of the undecodable template was first announced with a decodable
+		// definition of the same record length: the later definition is the one
+		// in force, its data sets must be skipped, not decoded under the older one
+		good := model.Template{ID: 400, Fields: []model.FieldSpec{{ID: 8, Len: 4}, {ID: 1, Len: 8}}}
+		p.Tpls = append(p.Tpls, Delivery{Proto: p.Proto, Abs: &model.Msg{Proto: mp, Time: 1, Seq: 0, Domain: 1, Sets: g.TemplateSets([]model.Template{good})}})
+	}
 	p.Tpls = append(p.Tpls, Delivery{Proto: p.Proto, Abs: &model.Msg{Proto: mp, Time: 1, Seq: 1, Domain: 1, Sets: g.TemplateSets(append(append([]model.Template(nil), tpls...), bad))}})
 	// M: data sets (and sometimes a template set announcing one more template used later in M)
 	m := &model.Msg{Proto: mp, Time: 2, Seq: 2, Domain: 1, SysUp: r.Uint32()}
